@@ -24,7 +24,7 @@ ASSUMPTIONS = [
     ".exception_registry.json): what a client can import from the core depends on nothing else, the copied runtime files being identical in every generation",
     "a non-force generation that raises (differences found) is a transition like any other: the resulting tree is what is explored",
 ]
-BOUND = {"quick": "6 layouts x 2 clients x 2-3 specs, forced generations for both clients + non-forced for the first, BFS to fixpoint; + one 14-step sweep history per layout", "thorough": "6 layouts x 3 clients x 4 specs x 2 force modes, BFS to depth 4"}
+BOUND = {"quick": "6 layouts x 2 clients x 2-3 specs, forced generations for both clients + non-forced for the first, BFS to fixpoint; + one 17-step sweep history per layout", "thorough": "6 layouts x 3 clients x 4 specs x 2 force modes, BFS to depth 4"}
 CHUNK = 1
 CASE_TIMEOUT_S = 1500
 
